@@ -12,7 +12,7 @@ RULE = ("histories over 1-4 resources with 0-3 isolation rules each (thresholds 
         "random order incl. Exit(WithError), TraceError before/after exit, double exits, two goroutines exiting one entry at once (dexit), "
         "exits of blocked/unknown ids, gauge reads, rule reloads mid-history with live entries (append a stricter/looser rule, remove, "
         "reorder, change, same, fresh), half of all loads through one reused caller-owned slice that is overwritten after the call "
-        "(sload/sloadres), in-place edits of loaded rule objects (poke), GetRulesOfResource/GetRules reads, LoadRulesOfResource / ClearRulesOfResource on resources with and without rules (repeated, followed by "
+        "(sload/sloadres), rule lists of 9-40 rules on one resource with the binding rule late in the list (12 % of the loads), exit handlers returning nil / an error before exits, in-place edits of loaded rule objects (poke), GetRulesOfResource/GetRules reads, LoadRulesOfResource / ClearRulesOfResource on resources with and without rules (repeated, followed by "
         "traffic on the others), virtual clock steps (mostly backwards), and schedule ops (par/sched: 1-6 goroutines parked at chain.between-check-and-stat, random interleavings of "
         "check/record/exit steps); non-trivial = at least one pass, one isolation block and one exit that is not of the newest live entry; "
         "distinct by (rules, op-kind/boundary-class sequence); plus every short schedule over 2-4 threads, and soak cases (2-16 real "
@@ -38,9 +38,10 @@ class Sim:
         self.clock = 10000
         self.rng = None
         self.toks, self.idx = [], []
+        self.ghosts = []            # entries exited with a panicking exit handler: in flight for ever (as the code has it)
 
     def infl(self, res):
-        return sum(1 for r in self.live.values() if r == res)
+        return sum(1 for r in self.live.values() if r == res) + self.ghosts.count(res)
 
     def admit(self, res, b):
         n = self.infl(res)
@@ -58,7 +59,21 @@ def gen_rules(rng, sim, ops):
             t = rng.choice(THR_SMALL) if x < 0.72 else (rng.randint(1, 12) if x < 0.82 else rng.choice(THR_EDGE))
             toks.append((r, t))
     rng.shuffle(toks)           # rules of different resources interleaved in the load list
+    if rng.random() < 0.12:
+        toks = long_list(rng, toks)
     set_rules(sim, ops, toks)
+
+
+def long_list(rng, toks):
+    """one resource gets 9..40 rules, all loose but one: the binding rule sits late in the list (position >= 8, often the last)"""
+    r = rng.choice(RES)
+    n = rng.choice([9, 9, 10, 12, 16, 17, 24, 33, 40])
+    strict = rng.choice([1, 2, 3])
+    pos = rng.choice([8, n - 1, n - 1, rng.randint(8, n - 1)])
+    own = [(r, strict if i == pos else strict + rng.choice([1, 2, 5, 100, U32 - 1 - strict])) for i in range(n)]
+    others = [(a, t) for a, t in toks if a != r]
+    k = rng.randint(0, len(others))
+    return others[:k] + own + others[k:] if rng.random() < 0.5 else own + others
 
 
 def rebuild(sim):
@@ -176,6 +191,7 @@ def gen_case(rng, cid):
                 ids = list(sim.live)
                 z = rng.random()
                 i = ids[0] if z < 0.3 else (ids[-1] if z < 0.45 else rng.choice(ids))
+                gone_res = sim.live[i]
                 del sim.live[i]
                 sim.exited.append(i)
                 cls.append("exit")
@@ -191,12 +207,23 @@ def gen_case(rng, cid):
             if i in sim.live:
                 continue
             z = rng.random()
-            if z < 0.08:
+            if z < 0.03 and cls and cls[-1] == "exit":
+                # Exit with a panicking exit handler: as the code has it the unit never comes back (the bookkeeping keeps it in flight
+                # under an id nobody names)
+                ops.append(f"pexit {i}")
+                sim.ghosts.append(gone_res)
+                cls.append("pexit")
+            elif z < 0.08:
+                if rng.random() < 0.3:
+                    ops.append(f"when {i} err")
                 ops.append(f"dexit {i}")        # two goroutines call Exit on this entry at once
                 cls.append("dexit")
             else:
                 if rng.random() < 0.25:
                     ops.append(f"trace {i}")
+                if rng.random() < 0.3:          # exit handlers returning nil / an error (sometimes several)
+                    for _ in range(rng.choice([1, 1, 2, 3])):
+                        ops.append(f"when {i} {rng.choice(['ok', 'err', 'err'])}")
                 ops.append(f"exit {i} err" if z < 0.45 else f"exit {i}")
         elif x < 0.765:
             ops.append(f"conc {res}")
@@ -217,6 +244,8 @@ def gen_case(rng, cid):
                 cls.append("clearres" + ("" if r in sim.rules else "-ruleless"))
             else:
                 ths = [rng.choice(THR_SMALL + [0]) if rng.random() < 0.85 else rng.choice(THR_EDGE) for _ in range(rng.choice([0, 1, 1, 2, 3]))]
+                if rng.random() < 0.15:         # a long per-resource list with the binding rule late
+                    ths = [t for _, t in long_list(rng, [])]
                 kind = "sloadres " if rng.random() < 0.6 else "loadres "
                 last = getattr(sim, "last_s", None)
                 if last and rng.random() < 0.4:
@@ -343,7 +372,7 @@ def nontrivial(case, impl):
                 kinds.append("B")
             else:
                 kinds.append("D")
-        elif t[0] in ("exit", "dexit"):
+        elif t[0] in ("exit", "dexit", "pexit"):
             if t[1] in live:
                 if live[-1] != t[1]:
                     ooo = True
